@@ -156,14 +156,6 @@ def handle (op : String) (req : Json) : R Json := do
       ("load", jObj [("model", jImage id stModel loadM), ("spec", jImage id stSpec loadS)]),
       ("agree", jObj [("model", agM), ("spec", agS)]),
       ("acq_eq_log", acqEq)])
-  | "c02.names" =>
-    -- string-level helpers on a list of names (generator self-test and correspondence of the matchers)
-    let names ← getList asName req "names"
-    pure (jObj [
-      ("basename", jList (fun n => jName (basename n)) names),
-      ("basename_spec", jList (fun n => jName (basenameSpec n)) names),
-      ("is_data", jList (fun n => jBool (isDataName n)) names),
-      ("digits", jList (fun n => jNat (digitsVal n)) names)])
   | _ => throw s!"unknown op {op}"
 
 end PewDriver.C02
